@@ -41,6 +41,13 @@ PROP = {
         {"name": "c01_open", "src": "c01_hash.cpp", "flags": ["-DVF_PART=2"]},
         # configuration corners: LimP<7>/<15> with pointer state (DivBySmall general branch), pools with one block per buffer
         {"name": "c01_cfg", "src": "c01_hash.cpp", "flags": ["-DVF_PART=3"]},
+        # maps whose key and value are both element classes (model level): 10 combinations of relocation / assignment categories
+        {"name": "c01_mapcat", "src": "c01_hash.cpp", "flags": ["-DVF_PART=4"]},
+    ] + [
+        # property level, all 16 key x value category combinations, HashMap API spellings (described under C04 rule (g))
+        {"name": "c01_mapsweep_%d" % k, "src": "c10_mapcat.cpp", "sanitize": "asan", "flags": ["-DMC_PART=%d" % k, "-O0"], "timeout_quick": 600, "timeout_thorough": 3000}
+        for k in range(1, 5)
+    ] + [
         # the LimP4 instantiations with 48- / 32-bit pointer states (32: every allocation from a MAP_32BIT arena); the global macro is
         # needed because momo ignores a manager's own ptrUsefulBitCount (observation O3, harness/common/verif_ptrbits.h)
         {"name": "c01_chain_p48", "src": "c01_hash.cpp", "flags": ["-DVF_PART=0", "-DVF_PTRBITS=48", "-DMOMO_MEM_MANAGER_PTR_USEFUL_BIT_COUNT=48"]},
